@@ -89,6 +89,10 @@ def getattr(I, st, v, name):
             if m is not None:
                 yield st, bind_member(I, st, m, v, e.cls)
                 return
+            if "__list__" in e.attrs and name in _LIST_METHODS:
+                # instance of a class deriving from list: methods of list not overridden by the class
+                yield st, list_method(I, st, e.attrs["__list__"], name)
+                return
             ga, _ = I.class_lookup(e.cls, "__getattr__")
             if ga is not None:
                 yield from I.call(ga, [v, name], {}, st)
@@ -146,6 +150,16 @@ def getattr(I, st, v, name):
             return
         if v.name == "float" and name == "fromhex":
             raise Unsupported("float.fromhex")
+        if v.name == "list" and name == "__init__":
+            def _list_init(I, st, a, k):
+                # list.__init__(self[, iterable]) on an instance of a list subclass: clear, then extend
+                if k or not a or len(a) > 2 or not (isinstance(a[0], Ref) and "__list__" in _b.getattr(st.get(a[0]), "attrs", {})):
+                    raise Unsupported("list.__init__ on %r" % (a[:1],))
+                items = I.iterate(a[1], st) if len(a) == 2 else []
+                st.get(st.get(a[0]).attrs["__list__"]).items[:] = items
+                yield st, None
+            yield st, bi("list.__init__", _list_init)
+            return
         raise Unsupported("attribute %s of builtin class %s" % (name, v.name))
     if isinstance(v, SuperVal):
         selfv = v.self_val
@@ -288,6 +302,9 @@ def class_attr_for_instance(I, st, inst, cls, name):
         yield from I.call(m, [inst], {}, st)
         return
     yield st, bind_member(I, st, m, inst, cls)
+
+
+_LIST_METHODS = ("append", "extend", "insert", "pop", "remove", "index", "count", "clear", "reverse", "sort", "copy")
 
 
 def bind_member(I, st, m, inst, cls):
@@ -592,7 +609,53 @@ def obj_lt(I, st, k):
 
 
 def sort_objects(I, st, items, keys, reverse):
-    raise Unsupported("sorting objects by __lt__")
+    """sorted() of objects whose class defines __lt__ (keys[i] is the object compared for items[i]).  Every ordered
+    pair is compared with the class's __lt__ (forking on symbolic outcomes); if the outcomes form a strict weak
+    order the result is THE stable sorted permutation (A3), which is what CPython's sort returns for any consistent
+    `<`; otherwise the result would depend on the sorting algorithm: Unsupported."""
+    if reverse:
+        raise Unsupported("sorting objects by __lt__ with reverse")
+    n = len(items)
+    if n > 6:
+        raise Unsupported("sorting more than 6 objects by __lt__")
+    pairs = [(i, j) for i in range(n) for j in range(n) if i != j]
+
+    def rec(s, p, lt):
+        if p == len(pairs):
+            yield s, lt
+            return
+        i, j = pairs[p]
+        m, _ = I.class_lookup(s.get(keys[i]).cls, "__lt__")
+        for s1, r in list(I.call(m, [keys[i], keys[j]], {}, s)):
+            if isinstance(r, Exc):
+                yield s1, r
+                continue
+            if isinstance(r, Opaque):
+                raise Unsupported("__lt__ returns an uninterpreted value")
+            for s2, b in I.branch(s1, I.truth(r, s1)):
+                d = dict(lt)
+                d[(i, j)] = bool(b)
+                yield from rec(s2, p + 1, d)
+
+    for s, lt in rec(st, 0, {}):
+        if isinstance(lt, Exc):
+            yield s, lt
+            continue
+        inc = lambda a, b: a == b or (not lt[(a, b)] and not lt[(b, a)])
+        for a in range(n):
+            for b in range(n):
+                if a != b and lt[(a, b)] and lt[(b, a)]:
+                    raise Unsupported("__lt__ is not asymmetric on the sorted objects")
+                for c in range(n):
+                    if len({a, b, c}) == 3:
+                        if lt[(a, b)] and lt[(b, c)] and not lt[(a, c)]:
+                            raise Unsupported("__lt__ is not transitive on the sorted objects")
+                        if inc(a, b) and inc(b, c) and not inc(a, c):
+                            raise Unsupported("__lt__ is not a strict weak order on the sorted objects")
+        # stable: i before j iff items[i] < items[j], or they are equivalent and i < j
+        order = sorted(range(n), key=lambda i: (sum(1 for j in range(n) if j != i and lt[(j, i)]), i))
+        I.trust("sorted", "A3: sorted/list.sort is the stable ordering permutation w.r.t. <")
+        yield s, [items[i] for i in order]
 
 
 def dict_method(I, st, ref, name):
@@ -1003,7 +1066,9 @@ def make_builtins(I):
                     yield st, e.shape[0]
             elif e.kind == "obj":
                 m, _ = I.class_lookup(e.cls, "__len__")
-                if m is None:
+                if m is None and "__list__" in e.attrs:
+                    yield st, len(st.get(e.attrs["__list__"]).items)
+                elif m is None:
                     yield st, exc("TypeError", "object has no len()")
                 else:
                     yield from I.call(m, [v], {}, st)
@@ -1232,6 +1297,36 @@ def make_builtins(I):
 
     add("print", _print)
 
+    def _ord(I, st, a, k):
+        v = a[0]
+        if isinstance(v, (str, bytes)):
+            if len(v) == 1:
+                yield st, ord(v)
+            else:
+                yield st, exc("TypeError", "ord() expected a character, but string of length %d found" % len(v))
+        elif isinstance(v, Opaque):
+            raise Unsupported("ord() of an uninterpreted string")
+        else:
+            yield st, exc("TypeError", "ord() expected string of length 1")
+
+    add("ord", _ord)
+
+    def _chr(I, st, a, k):
+        v = as_arith(a[0])
+        if isinstance(v, bool) or not isinstance(v, int):
+            if is_z3(v):
+                raise Unsupported("chr() of a symbolic integer")
+            if isinstance(v, bool):
+                yield st, chr(v)
+            else:
+                yield st, exc("TypeError", "an integer is required")
+        elif 0 <= v < 0x110000:
+            yield st, chr(v)
+        else:
+            yield st, exc("ValueError", "chr() arg not in range(0x110000)")
+
+    add("chr", _chr)
+
     def _id(I, st, a, k):
         v = a[0]
         if isinstance(v, Ref):
@@ -1410,6 +1505,8 @@ def isinstance_model(I, st, v, cls):
         if e.kind == "obj":
             if isinstance(cls, ClassVal):
                 return I.is_subclass(e.cls, cls)
+            if isinstance(cls, BuiltinClass) and cls.name == "list" and "__list__" in e.attrs:
+                return True
             return isinstance(cls, BuiltinClass) and cls.name == "object"
         kind = {"list": ("list",), "deque": ("deque",), "dict": ("dict",), "set": ("set", "frozenset"), "nd": ("ndarray",),
                 "symlist": ("list",)}[e.kind]
@@ -1684,6 +1781,11 @@ def make_ext_modules(I):
     E["functools"] = {"partial": bi("functools.partial", lambda I, st, a, k: iter([(st, Partial(a[0], a[1:], k))])),
                       "lru_cache": bi("functools.lru_cache", lambda I, st, a, k: iter([(st, a[0] if a else Opaque("lru_cache"))]))}
     E["operator"] = {}
+    import string as _string
+
+    # string: only the constant alphabets (exact values of CPython's string module)
+    E["string"] = {n: _b.getattr(_string, n) for n in ("ascii_uppercase", "ascii_lowercase", "ascii_letters", "digits", "hexdigits",
+                                                       "octdigits", "punctuation", "whitespace", "printable")}
     E["warnings"] = {"warn": bi("warnings.warn", lambda I, st, a, k: iter([(st, None)]))}
 
     from . import npmodel, bytesmodel
